@@ -85,6 +85,10 @@ Definition tick_interval : Z := 100000000.      (* expiredPitTickerInterval = 10
 Definition default_lifetime : Z := 4000000000.  (* 4000 ms *)
 Definition dnl_batch : nat := 100.
 
+(* SetCsCapacity(capacity int): a negative value (a uint64 >= 2^63 converted by fw/mgmt/cs.go) means unlimited (math.MaxInt) *)
+Definition max_int : N := 9223372036854775807.
+Definition cap_of_int (c : Z) : N := if c <? 0 then max_int else Z.to_N c.
+
 Definition init (t0 : Z) (c : N) (sv ad : bool) (life : Z) : st :=
   mkst t0 [mknode [] [] None] 0 [] [] 1 (t0 + tick_interval) 0 [] [] [] c [] [] sv ad life.
 
@@ -464,7 +468,7 @@ Definition process_interest (s : st) (face : N) (n : name) (cbp mbf : bool) (non
 (* ---- histories ------------------------------------------------------------------------------------------------ *)
 Inductive op :=
 | OAdv (d : N)                                                        (* virtual time passes *)
-| OCap (c : N)                                                        (* table.SetCsCapacity (management cs/config) *)
+| OCap (c : Z)                                                        (* table.SetCsCapacity(int) (management cs/config) *)
 | OIns (n : name) (w : N) (fresh : option N)                          (* PitCsTable.InsertData *)
 | OFind (n : name) (cbp mbf : bool)                                   (* PitCsTable.FindMatchingDataFromCS *)
 | OInterest (face : N) (n : name) (cbp mbf : bool) (nonce : N) (life : option N) (sent : list N)
@@ -477,7 +481,7 @@ Inductive res := RNone | RFind (c : list csent) | RInt (k : N) (c : list csent).
 Definition step (s : st) (o : op) : st * res :=
   match o with
   | OAdv d => (set_now s (now s + Z.of_N d), RNone)
-  | OCap c => (set_cap s c, RNone)
+  | OCap c => (set_cap s (cap_of_int c), RNone)
   | OIns n w f => (insert_data s n w f, RNone)
   | OFind n cbp mbf => let '(s', c) := find_cs s n cbp mbf in (s', RFind c)
   | OInterest face n cbp mbf nonce life sent =>
